@@ -44,7 +44,21 @@ type cfg struct {
 	// NarrowQuota: the concurrent quota's own filter (h.com/b/*) does not cover the traffic than the filter of
 	// the flow whose Limiter uses it (h.com/*)
 	NarrowQuota bool
+	// LateCluster: the gateway's cluster object (instance id, peers) is registered with the
+	// context manager only after the engine - and with it the quota - was built
+	LateCluster bool
+	// Hierarchy: concurrent quota Q (max Max, h.com/*) with a concurrent internal limit C (max 1,
+	// h.com/c/*).  Slot 1 sends to a flow that asks C only, slot 2 to a flow that asks Q and
+	// then C, slot 3 to a flow that asks Q only.
+	Hierarchy bool
 }
+
+type lateCluster struct{ id string }
+
+func (c *lateCluster) GetInstanceID() string          { return c.id }
+func (c *lateCluster) IsPartOfCluster(id string) bool { return id == c.id }
+func (c *lateCluster) GetPeerIDs() []string           { return []string{c.id} }
+func (c *lateCluster) Stop()                          {}
 
 func (c cfg) name() string {
 	if c.AfterRejectedDryRun {
@@ -55,6 +69,12 @@ func (c cfg) name() string {
 	}
 	if c.NarrowQuota {
 		return fmt.Sprintf("max=%d, quota filter narrower than the flow's", c.Max)
+	}
+	if c.Hierarchy {
+		return fmt.Sprintf("max=%d with an internal limit of 1; flows asking the limit, the quota then the limit, the quota", c.Max)
+	}
+	if c.LateCluster {
+		return fmt.Sprintf("max=%d, cluster object registered after the engine was built", c.Max)
 	}
 	if c.TwoQuotas && c.RateFirst {
 		return fmt.Sprintf("rate-quota+max=%d", c.Max)
@@ -266,8 +286,9 @@ type slotState struct {
 }
 
 type holder struct {
-	id string
-	at time.Time
+	id   string
+	at   time.Time
+	kind string // hierarchy configuration: which flow admitted it
 }
 
 type model struct {
@@ -283,6 +304,7 @@ type model struct {
 func newModel(c cfg) *model {
 	ctx, cancel := context.WithCancel(context.Background())
 	contextmanager.Get().WithContext(ctx)
+	contextmanager.Get().WithClusterLiveness(nil)
 	if c.AfterRejectedDryRun {
 		good := eng.Files{Flows: map[string]string{"f.yaml": flowFor(c)}, Quotas: map[string]string{"q.yaml": quotaYAML(c)}}
 		bad := eng.Files{Flows: good.Flows, Quotas: map[string]string{"q.yaml": "quotas:\n  - id: Q\n    filter:\n      url: h.com/*\n    strategy:\n      concurrent:\n        max_request_count: [not a number\n"}}
@@ -298,9 +320,17 @@ func newModel(c cfg) *model {
 			}
 		}
 	}
-	s, root, err := eng.NewStream(eng.Files{Flows: map[string]string{"f.yaml": flowFor(c)}, Quotas: map[string]string{"q.yaml": quotaFor(c)}})
+	files := eng.Files{Flows: map[string]string{"f.yaml": flowFor(c)}, Quotas: map[string]string{"q.yaml": quotaFor(c)}}
+	if c.Hierarchy {
+		files = eng.Files{Flows: map[string]string{"fc.yaml": hflow("fc", "h.com/c/x/*", "C"), "fd.yaml": hflow("fd", "h.com/c/d/*", "Q", "C"), "fa.yaml": hflow("fa", "h.com/a/*", "Q")},
+			Quotas: map[string]string{"q.yaml": quotaYAML(c) + fmt.Sprintf("internal_limits:\n  - id: C\n    parent_id: Q\n    filter:\n      url: h.com/c/*\n    strategy:\n      concurrent:\n        max_request_count: 1\n        request_expiration_sec: %d\n        gc_interval_sec: %d\n", int(expiry/time.Second), int(gcInt/time.Second))}}
+	}
+	s, root, err := eng.NewStream(files)
 	if err != nil {
 		panic("engine did not load: " + err.Error())
+	}
+	if c.LateCluster {
+		contextmanager.Get().WithClusterLiveness(&lateCluster{id: "gateway-1"})
 	}
 	return &model{c: c, s: s, root: root, cancel: cancel, ended: map[string]bool{}}
 }
@@ -334,8 +364,158 @@ func (m *model) release(id string) {
 	}
 }
 
+// hflow: a flow that asks the given quotas in order (refused by any: 429), then answers
+// requests carrying x-early itself (200) and forwards the others.
+func hflow(name, url string, quotas ...string) string {
+	var sb strings.Builder
+	fmt.Fprintf(&sb, "name: %s\nfilter:\n  url: %s\nprocessors:\n", name, url)
+	for i, q := range quotas {
+		fmt.Fprintf(&sb, "  L%d%s:\n    processor: Limiter\n    parameters:\n      - key: quota_id\n        value: %s\n", i, name, q)
+	}
+	fmt.Fprintf(&sb, "  F%[1]s:\n    processor: Filter\n    parameters:\n      - key: header\n        value: x-early=1\n  G429%[1]s:\n    processor: GenerateResponse\n    parameters:\n      - key: status\n        value: 429\n  G200%[1]s:\n    processor: GenerateResponse\n    parameters:\n      - key: status\n        value: 200\n      - key: body\n        value: early\n", name)
+	sb.WriteString("flow:\n  request:\n")
+	conn := func(from, cond, to string) {
+		if from == "" {
+			sb.WriteString("    - from:\n        stream:\n          name: globalStream\n          at: start\n")
+		} else if cond == "" {
+			fmt.Fprintf(&sb, "    - from:\n        processor:\n          name: %s\n", from)
+		} else {
+			fmt.Fprintf(&sb, "    - from:\n        processor:\n          name: %s\n          condition: %s\n", from, cond)
+		}
+		if to == "" {
+			sb.WriteString("      to:\n        stream:\n          name: globalStream\n          at: end\n")
+		} else {
+			fmt.Fprintf(&sb, "      to:\n        processor:\n          name: %s\n", to)
+		}
+	}
+	l := func(i int) string { return fmt.Sprintf("L%d%s", i, name) }
+	conn("", "", l(0))
+	for i := range quotas {
+		conn(l(i), "above_limit", "G429"+name)
+		next := "F" + name
+		if i+1 < len(quotas) {
+			next = l(i + 1)
+		}
+		conn(l(i), "below_limit", next)
+	}
+	conn("F"+name, "hit", "G200"+name)
+	conn("F"+name, "miss", "")
+	sb.WriteString("  response:\n")
+	conn("G429"+name, "", "")
+	conn("G200"+name, "", "")
+	sb.WriteString("    - from:\n        stream:\n          name: globalStream\n          at: start\n      to:\n        stream:\n          name: globalStream\n          at: end\n")
+	return sb.String()
+}
+
+var hKind = [3]string{"c", "d", "a"}
+var hURL = [3]string{"h.com/c/x/1", "h.com/c/d/1", "h.com/a/1"}
+
+// hBounds: slots of Q and of C that are certainly / possibly held.  A transaction that asked Q
+// and then C ("d") holds one slot of Q for certain and possibly two (the limit's own
+// admission walks up to its parent as well); which of the two is not part of the statement.
+func (m *model) hBounds(now time.Time) (loQ, hiQ, loC, hiC int) {
+	for _, h := range m.holders {
+		age := now.Sub(h.at)
+		certain, possible := age < expiry+slack, age < expiry+slack+gcInt+time.Millisecond
+		k := h.kind
+		if certain {
+			loQ++
+			if k != "a" {
+				loC++
+			}
+		}
+		if possible {
+			hiQ++
+			if k == "d" {
+				hiQ++
+			}
+			if k != "a" {
+				hiC++
+			}
+		}
+	}
+	return
+}
+
+func (m *model) applyH(e event) string {
+	sl := &m.slots[e.slot]
+	now := time.Now()
+	kind, url := hKind[e.slot], hURL[e.slot]
+	switch e.kind {
+	case "req", "reqEarly":
+		if sl.inflight {
+			return ""
+		}
+		sl.n++
+		sl.id = fmt.Sprintf("t%d.%d", e.slot+1, sl.n)
+		hs := map[string]string{}
+		if e.kind == "reqEarly" {
+			hs["x-early"] = "1"
+		}
+		loQ, hiQ, loC, hiC := m.hBounds(now)
+		v := eng.OnRequest(m.s, eng.Req{ID: sl.id, URL: url, Headers: hs})
+		if os.Getenv("VERIF_REPLAY") != "" {
+			fmt.Printf("   %s %s -> early=%v status=%d err=%q\n", sl.id, url, v.Early, v.Status, v.Err)
+		}
+		if v.Err != "" {
+			return "ERROR " + v.Err
+		}
+		maxQ := m.c.Max
+		if !(v.Early && v.Status == 429) {
+			if loQ >= maxQ || (kind != "a" && loC >= 1) {
+				return fmt.Sprintf("OVER-ADMISSION %s (%s, asks %s) was admitted while quota Q held %d of %d and its internal limit %d of 1 unexpired transactions: %v", e, sl.id, asks(kind), loQ, maxQ, loC, m.holders)
+			}
+			if v.Early {
+				if e.kind != "reqEarly" {
+					return fmt.Sprintf("UNEXPECTED-EARLY %s got an early response %d", e, v.Status)
+				}
+				return ""
+			}
+			if e.kind == "reqEarly" {
+				return fmt.Sprintf("EARLY-BRANCH %s should have been answered by the gateway (x-early) but was forwarded", e)
+			}
+			sl.inflight = true
+			m.holders = append(m.holders, holder{id: sl.id, at: now, kind: kind})
+			return ""
+		}
+		need := 1
+		if kind == "d" {
+			need = 2
+		}
+		if hiQ+need <= maxQ && (kind == "a" || hiC < 1) {
+			return fmt.Sprintf("SLOT-LEAK:hierarchy %s (%s, asks %s) was refused although at most %d of %d slots of Q and %d of 1 of its internal limit can still be taken (holders %v)", e, sl.id, asks(kind), hiQ, maxQ, hiC, m.holders)
+		}
+		return ""
+	case "resp":
+		if !sl.inflight {
+			return ""
+		}
+		v := eng.OnResponse(m.s, eng.Resp{ID: sl.id, URL: url, Status: 200})
+		sl.inflight = false
+		m.release(sl.id)
+		if v.Err != "" {
+			return "ERROR " + v.Err
+		}
+	case "err":
+		if !sl.inflight {
+			return ""
+		}
+		m.s.OnError(sl.id)
+		sl.inflight = false
+		m.release(sl.id)
+	}
+	return ""
+}
+
+func asks(kind string) string {
+	return map[string]string{"c": "the internal limit", "d": "the quota, then its internal limit", "a": "the quota"}[kind]
+}
+
 func (m *model) Apply(ei int) string {
 	e := alpha[ei]
+	if e.kind != "tick" && m.c.Hierarchy {
+		return m.applyH(e)
+	}
 	if e.kind == "tick" {
 		time.Sleep(e.d)
 		synctest.Wait() // the quota's GC goroutine runs when due
@@ -375,7 +555,7 @@ func (m *model) Apply(ei int) string {
 				return fmt.Sprintf("EARLY-BRANCH %s should have been answered by the gateway (x-early) but was forwarded", e)
 			}
 			sl.inflight = true
-			m.holders = append(m.holders, holder{sl.id, now})
+			m.holders = append(m.holders, holder{id: sl.id, at: now})
 			return ""
 		}
 		if hi < m.c.Max {
@@ -429,7 +609,7 @@ var _ = os.Getenv
 func TestCheck(t *testing.T) {
 	r := mc.New("C02", "model_checking")
 	depth := mc.Pick(r, 6, 7)
-	cs := []cfg{{Max: 1}, {Max: 2}, {Max: 1, TwoQuotas: true}, {Max: 1, TwoQuotas: true, RateFirst: true}, {Max: 1, AfterRejectedDryRun: true}, {Max: 1, UnreferencedSibling: true}, {Max: 1, NarrowQuota: true}}
+	cs := []cfg{{Max: 1}, {Max: 2}, {Max: 1, TwoQuotas: true}, {Max: 1, TwoQuotas: true, RateFirst: true}, {Max: 1, AfterRejectedDryRun: true}, {Max: 1, UnreferencedSibling: true}, {Max: 1, NarrowQuota: true}, {Max: 1, LateCluster: true}, {Max: 2, Hierarchy: true}}
 	if f := mc.ReplayFile(); f != "" {
 		var rp mc.BFSReplay
 		if err := mc.LoadReplay(f, &rp); err != nil || rp.Model == "" {
